@@ -79,6 +79,13 @@ func c01Scenarios(tier string) []*hist.Scenario {
 				add(f.name, "", f.init, []string{op}, 3, 3, 3, 1)
 			}
 		}
+		// attribute registers compare tickets, never values: two writers of an
+		// EQUAL value and one writer of a different value, three clients, one
+		// write each, every sync placement (seeded change C01-3; all other style
+		// kinds write a fresh value per event)
+		add("txt", "", []string{"init.t"}, []string{"t.styFx", "t.styF"}, 3, 3, 3, 1)
+		add("tree", "", []string{"init.tr"}, []string{"tr.sty0x", "tr.sty0"}, 3, 3, 3, 1)
+		add("txt", "", []string{"init.t"}, []string{"t.styFx", "t.styF"}, 2, 3, 3, 0)
 		// four and five clients, wide and shallow: every subset of the clients
 		// makes one (pairwise concurrent) edit, then every order in which the
 		// clients sync once; 495 / 4 061 histories per kind
@@ -129,6 +136,10 @@ func c01Scenarios(tier string) []*hist.Scenario {
 			add(f.name, "", f.init, []string{op}, 4, 4, 4, 1)
 		}
 	}
+	add("txt", "", []string{"init.t"}, []string{"t.styFx", "t.styF"}, 3, 3, 3, 1)
+	add("tree", "", []string{"init.tr"}, []string{"tr.sty0x", "tr.sty0"}, 3, 3, 3, 1)
+	add("txt", "", []string{"init.t"}, []string{"t.styFx", "t.styF"}, 2, 3, 4, 0)
+	add("tree", "", []string{"init.tr"}, []string{"tr.sty0x", "tr.sty0"}, 2, 3, 4, 0)
 	for _, f := range coreFamilies() {
 		for _, op := range f.ops {
 			wide(f.name, f.init, []string{op}, 4)
